@@ -1231,14 +1231,16 @@ def c15_gating(inp):
     y, fs = rng_data(3, n=1500, nch=3)
     alone = {}
 
-    def alone_result(kind):
-        if kind not in alone:
+    def alone_result(kind, ver=0):
+        if (kind, ver) not in alone:
             st = SingleSetup(y.copy(), fs)
+            for _ in range(ver):
+                st.decimate_data(q=2)
             a = mk[kind]("solo")
             st.add_algorithms(a)
             st.run_by_name("solo")
-            alone[kind] = a.result.model_dump()
-        return alone[kind]
+            alone[(kind, ver)] = a.result.model_dump()
+        return alone[(kind, ver)]
     mpe_args = {"FDD": dict(sel_freq=[3.1, 7.7], DF=0.5), "SSIcov": dict(sel_freq=[3.1, 7.7], order=8), "pLSCF": dict(sel_freq=[3.1, 7.7], order=4)}
     for trial in range(ntr):
         data = y.copy()
@@ -1246,8 +1248,19 @@ def c15_gating(inp):
         ref = data.copy()
         added, ran = {}, set()
         ops = []
+        ver, bound = 0, {}
         for step in range(int(rng.randint(2, 6))):
-            op = rng.choice(["add", "run", "run_all", "mpe", "run_missing", "mpe_unrun"])
+            op = rng.choice(["add", "run", "run_all", "mpe", "run_missing", "mpe_unrun", "decimate"])
+            if op == "decimate":
+                if ver >= 1:
+                    continue
+                st.decimate_data(q=2)       # rebinds the setup's data; algorithms added before keep theirs
+                ver += 1
+                ops.append("decimate(q=2)")
+                for n2, (k2, a2) in added.items():
+                    if a2.data is not bound[n2][0] or a2.fs != bound[n2][1]:
+                        return {"reproduced": True, "detail": f"decimating the setup re-bound the data of {n2} ({ops})"}
+                continue
             kinds = list(mk)
             if op == "add" or not added:
                 kind = kinds[int(rng.randint(len(kinds)))]
@@ -1255,9 +1268,13 @@ def c15_gating(inp):
                 a = mk[kind](nm)
                 st.add_algorithms(a)
                 added[nm] = (kind, a)
+                bound[nm] = (st.data, st.fs, ver)
                 ops.append(f"add {nm}")
                 if a.data is not st.data or a.fs != st.fs:
                     return {"reproduced": True, "detail": f"add_algorithms did not bind the setup's data/fs ({ops})"}
+                for n2, (k2, a2) in added.items():
+                    if a2.data is not bound[n2][0] or a2.fs != bound[n2][1]:
+                        return {"reproduced": True, "detail": f"adding {nm} re-bound the data / fs of the earlier algorithm {n2}: fs {bound[n2][1]} -> {a2.fs} ({ops})"}
                 continue
             nm = list(added)[int(rng.randint(len(added)))]
             kind, a = added[nm]
@@ -1267,7 +1284,7 @@ def c15_gating(inp):
                 if op == "run":
                     st.run_by_name(nm)
                     ran.add(nm)
-                    if not _c15_equal(a.result.model_dump(), alone_result(kind)):
+                    if not _c15_equal(a.result.model_dump(), alone_result(kind, bound[nm][2])):
                         return {"reproduced": True, "detail": f"result of {nm} differs from the same algorithm run alone on the same data ({ops})"}
                     for n2, (k2, a2) in added.items():
                         if n2 != nm and id(a2.result) != before[n2]["result_id"]:
@@ -1276,7 +1293,7 @@ def c15_gating(inp):
                     st.run_all()
                     ran |= set(added)
                     for n2, (k2, a2) in added.items():
-                        if not _c15_equal(a2.result.model_dump(), alone_result(k2)):
+                        if not _c15_equal(a2.result.model_dump(), alone_result(k2, bound[n2][2])):
                             return {"reproduced": True, "detail": f"run_all: result of {n2} differs from the same algorithm run alone ({ops})"}
                 elif op == "mpe":
                     if nm in ran:
@@ -1317,7 +1334,7 @@ def c15_gating(inp):
                             return {"reproduced": True, "detail": f"{kind}.mpe without a run raised but stored something"}
             except Exception as e:      # noqa: BLE001
                 return {"reproduced": True, "detail": f"unexpected {type(e).__name__}: {e} ({ops})"}
-            if not np.array_equal(st.data, ref) or st.data is not data:
+            if not np.array_equal(data, ref) or (ver == 0 and st.data is not data):
                 return {"reproduced": True, "detail": f"the shared data array was modified ({ops})"}
         # persistence
         with tempfile.TemporaryDirectory() as d:
@@ -1391,7 +1408,237 @@ def c15_poser(inp):
     return {"reproduced": False, "detail": f"PoSER constructor agrees with the validity predicate on {n_checked} input assignments"}
 
 
-DRIVERS = {"c15_gating": c15_gating, "c15_poser": c15_poser, "c11_plscf_findmin": c11_plscf_findmin, "c11_mpe": c11_mpe, "c06_fdd": c06_fdd, "c20_plots": c20_plots, "c18_indicators": c18_indicators, "c13_sdest": c13_sdest, "c04_preger": c04_preger, "c03_split": c03_split, "c14_sequences": c14_sequences, "c16_dialog": c16_dialog, "c02_merge": c02_merge, "c09_run": c09_run, "c10_run": c10_run, "c10_fn": c10_fn}
+# ----------------------------------------------------------------------------------
+# C19: geometry tables (validation, alignment to the sensor order, zero-based indices, mapping)
+# ----------------------------------------------------------------------------------
+
+def _c19_names(rng, multi):
+    """-> (names argument as list / list of lists, ref_ind, expected flat order)"""
+    if not multi:
+        n = int(rng.randint(1, 6))
+        names = [f"s{i}" for i in rng.permutation(n)]
+        return names, None, list(names)
+    nset = int(rng.randint(2, 4))
+    k = int(rng.randint(1, 3))
+    rows, refs, flat = [], [], [f"REF{i + 1}" for i in range(k)]
+    for s_ in range(nset):
+        nch = k + int(rng.randint(1, 4))
+        ref = [int(x) for x in rng.permutation(nch)[:k]]
+        row = [f"u{s_}_{j}" for j in range(nch)]
+        rows.append(row)
+        refs.append(ref)
+        flat += [row[j] for j in range(nch) if j not in ref]
+    return rows, refs, flat
+
+
+def _c19_forms(names, multi):
+    import pandas as pd
+    if multi:
+        return {"list of lists": names, "multi-row table": pd.DataFrame(names)}
+    return {"list": list(names), "one-row table": pd.DataFrame([names]), "array": np.array(names)}
+
+
+def c19_geo(inp):
+    import itertools
+
+    import pandas as pd
+
+    from pyoma2.functions import gen
+    rng = np.random.RandomState(int(inp.get("seed", 19)))
+    ntr = int(inp.get("trials", 150))
+    fails = {}
+
+    def note(claim, detail):
+        fails.setdefault(claim, detail)
+
+    def call(claim, fn, *a, **k):
+        try:
+            return True, fn(*a, **k)
+        except ValueError as e:
+            return False, e
+        except Exception as e:      # noqa: BLE001
+            note(claim, f"{type(e).__name__}: {e}")
+            return None, e
+    for trial in range(ntr):
+        multi = trial % 3 == 2
+        names, ref_ind, flat = _c19_names(rng, multi)
+        n = len(flat)
+        # ---- flatten_sns_names on every documented form -----------------------------------------
+        for form, val in _c19_forms(names, multi).items():
+            ok, got = call(f"flatten_sns_names accepts a {form}", gen.flatten_sns_names, val, ref_ind)
+            if ok and list(got) != flat:
+                note(f"flatten_sns_names order ({form})", f"got {list(got)}, expected {flat} (ref_ind={ref_ind})")
+            elif ok is False:
+                note(f"flatten_sns_names accepts a {form}", f"ValueError: {got}")
+        # ---- geometry 1 ---------------------------------------------------------------------------
+        perm = rng.permutation(n)
+        extra = int(rng.randint(0, 2))
+        idx = [flat[i] for i in perm] + [f"spare{j}" for j in range(extra)]
+        coord = pd.DataFrame(rng.rand(len(idx), 3).round(3), index=idx, columns=["x", "y", "z"])
+        dirs = pd.DataFrame(rng.randint(-1, 2, (len(idx), 3)), index=idx, columns=["x", "y", "z"])
+        lines1 = pd.DataFrame(rng.randint(1, n + 1, (int(rng.randint(1, 4)), 2)))
+        bgn = pd.DataFrame(rng.rand(4, 3))
+        bgl = pd.DataFrame(rng.randint(1, 5, (3, 2)))
+        bgs = pd.DataFrame(rng.randint(1, 5, (2, 3)))
+        opt = {"sensors lines": lines1, "BG nodes": bgn, "BG lines": bgl, "BG surfaces": bgs}
+        present = [k_ for k_ in opt if rng.rand() < 0.5]
+        nm_tab = pd.DataFrame(names) if multi else pd.DataFrame([names])
+
+        def fd1():
+            d = {"sensors names": nm_tab.copy(), "sensors coordinates": coord.copy(), "sensors directions": dirs.copy()}
+            d.update({k_: opt[k_].copy() for k_ in present})
+            return d
+        ok, r = call("check_on_geo1 accepts a valid table set (any subset of optional sheets)", gen.check_on_geo1, fd1(), ref_ind)
+        if ok is False:
+            note("check_on_geo1 accepts a valid table set (any subset of optional sheets)", f"ValueError: {r} (sheets {present})")
+        if ok:
+            sn, sc, sd, sl, bn, bl, bs = r
+            if list(sn) != flat or list(sc.index) != flat or not np.array_equal(sc.to_numpy(), coord.loc[flat].to_numpy()) \
+                    or not np.array_equal(np.asarray(sd), dirs.loc[flat].to_numpy()):
+                note("geo1: coordinates and directions follow the sensor-name order", f"names {flat}, coordinate index {list(sc.index)}")
+            for key, got, one_based in (("sensors lines", sl, True), ("BG nodes", bn, False), ("BG lines", bl, True), ("BG surfaces", bs, True)):
+                if key not in present:
+                    if got is not None:
+                        note("geo1: an omitted optional sheet gives None", f"{key}: {got!r}")
+                else:
+                    want = opt[key].to_numpy() - (1 if one_based else 0)
+                    if got is None or not np.array_equal(np.asarray(got), want):
+                        note(f"geo1: {key} is {'zero-based' if one_based else 'kept'}", f"got {None if got is None else np.asarray(got).tolist()}, want {want.tolist()}")
+        # single faults
+        faults1 = {
+            "missing required sheet": lambda d: d.pop(rng.choice(["sensors names", "sensors coordinates", "sensors directions"])),
+            "unknown sheet": lambda d: d.update({"sensor lines": lines1.copy()}),
+            "coordinates with 2 columns": lambda d: d.update({"sensors coordinates": coord.iloc[:, :2].copy(), "sensors directions": dirs.iloc[:, :2].copy()}),
+            "directions of another shape": lambda d: d.update({"sensors directions": dirs.iloc[:-1].copy()}) if len(idx) > 1 else d.pop("sensors directions"),
+            "directions with another index": lambda d: d.update({"sensors directions": dirs.rename(index={idx[0]: "zz"})}),
+            "BG lines with 3 columns": lambda d: d.update({"BG lines": bgs.copy()}),
+            "BG nodes with 2 columns": lambda d: d.update({"BG nodes": bgl.copy().astype(float)}),
+            "BG surfaces with 2 columns": lambda d: d.update({"BG surfaces": bgl.copy()}),
+            "sensor name absent from the coordinates": lambda d: d.update({"sensors coordinates": coord.rename(index={flat[-1]: "zz"}), "sensors directions": dirs.rename(index={flat[-1]: "zz"})}),
+        }
+        for fname, mut in faults1.items():
+            d = fd1()
+            mut(d)
+            ok, r = call(f"geo1 fault '{fname}' raises ValueError", gen.check_on_geo1, d, ref_ind)
+            if ok:
+                note(f"geo1 fault '{fname}' raises ValueError", "accepted")
+        # ---- geometry 2 ---------------------------------------------------------------------------
+        npts = int(rng.randint(max(1, (n + 2) // 3), n + 2))
+        cells = [(p_, c_) for p_ in range(npts) for c_ in range(3)]
+        while len(cells) < n:
+            npts += 1
+            cells = [(p_, c_) for p_ in range(npts) for c_ in range(3)]
+        order = rng.permutation(len(cells))
+        mp = np.full((npts, 3), 0, dtype=object)
+        for sname, ci in zip(flat, order[:n]):
+            mp[cells[ci]] = sname
+        rest = [cells[ci] for ci in order[n:]]
+        use_cstr = bool(rest) and rng.rand() < 0.6
+        cstr_tab = None
+        if use_cstr:
+            mp[rest[0]] = "link"
+            cols = [flat[i] for i in rng.permutation(n)[: int(rng.randint(1, n + 1))]]
+            cstr_tab = pd.DataFrame([rng.randint(-2, 3, len(cols)).astype(float)], index=["link"], columns=cols)
+            if rng.rand() < 0.3:
+                cstr_tab.iloc[0, 0] = np.nan
+        for cell in rest[1:]:
+            if rng.rand() < 0.3:
+                mp[cell] = np.nan
+        pts = pd.DataFrame(rng.rand(npts, 3).round(3), columns=["x", "y", "z"])
+        mapping = pd.DataFrame(mp, columns=["x", "y", "z"])
+        sign = pd.DataFrame(rng.choice([-1, 1], (npts, 3)), columns=["x", "y", "z"])
+        surf = pd.DataFrame(rng.randint(1, npts + 1, (2, 3)))
+        lines2 = pd.DataFrame(rng.randint(1, npts + 1, (2, 2)))
+        opt2 = {"sensors sign": sign, "sensors lines": lines2, "sensors surfaces": surf, "BG nodes": bgn, "BG lines": bgl, "BG surfaces": bgs}
+        if cstr_tab is not None:
+            opt2["constraints"] = cstr_tab
+        present2 = [k_ for k_ in opt2 if rng.rand() < 0.5 or k_ == "constraints"]
+
+        def fd2():
+            d = {"sensors names": nm_tab.copy(), "points coordinates": pts.copy(), "mapping": mapping.copy()}
+            d.update({k_: opt2[k_].copy() for k_ in present2})
+            return d
+        ok, r = call("check_on_geo2 accepts a valid table set (any subset of optional sheets)", gen.check_on_geo2, fd2(), ref_ind)
+        if ok is False:
+            note("check_on_geo2 accepts a valid table set (any subset of optional sheets)", f"ValueError: {r} (sheets {present2})")
+        if ok:
+            sn, pc, sm, cs, sg, sl, ss_, bn, bl, bs = r
+            if list(sn) != flat:
+                note("geo2: sensor names in the documented order", f"{list(sn)} vs {flat}")
+            if "sensors sign" not in present2 and (sg is None or not np.array_equal(sg.to_numpy(), np.ones((npts, 3)))):
+                note("geo2: an omitted sign sheet means +1 everywhere", repr(sg))
+            for key, got in (("sensors lines", sl), ("sensors surfaces", ss_), ("BG lines", bl), ("BG surfaces", bs)):
+                if key in present2:
+                    want = opt2[key].to_numpy() - 1
+                    if got is None or not np.array_equal(np.asarray(got), want):
+                        note(f"geo2: {key} is zero-based", f"got {None if got is None else np.asarray(got).tolist()}, want {want.tolist()}")
+                elif got is not None:
+                    note("geo2: an omitted optional sheet gives None", f"{key}: {got!r}")
+            # mapping of a mode shape to the points
+            phi = rng.randn(n).round(3)
+            try:
+                dm = gen.dfphi_map_func(phi, sn, sm, cstrn=cs).to_numpy()
+                want = np.zeros((npts, 3))
+                val = dict(zip(flat, phi))
+                for p_ in range(npts):
+                    for c_ in range(3):
+                        v = mp[p_, c_]
+                        if isinstance(v, str) and v in val:
+                            want[p_, c_] = val[v]
+                        elif v == "link" and cstr_tab is not None:
+                            want[p_, c_] = sum((0.0 if np.isnan(cstr_tab.iloc[0][c2]) else cstr_tab.iloc[0][c2]) * val[c2] for c2 in cstr_tab.columns)
+                if not np.allclose(dm, want, atol=1e-12):
+                    note("mapping places each sensor's component at the cells naming it (constraint: linear combination; else 0)",
+                         f"names {flat}, mapping {mp.tolist()}, got {np.round(dm, 3).tolist()}, want {np.round(want, 3).tolist()}")
+            except Exception as e:      # noqa: BLE001
+                note("dfphi_map_func maps a valid geometry", f"{type(e).__name__}: {e}")
+        faults2 = {
+            "missing required sheet": lambda d: d.pop(rng.choice(["sensors names", "points coordinates", "mapping"])),
+            "unknown sheet": lambda d: d.update({"constraint": pd.DataFrame([[1.0]])}),
+            "points with 2 columns": lambda d: d.update({"points coordinates": pts.iloc[:, :2].copy(), "mapping": mapping.iloc[:, :2].copy()}),
+            "mapping of another shape": lambda d: d.update({"mapping": pd.concat([mapping, mapping.iloc[:1]], ignore_index=True)}),
+            "sign of another shape": lambda d: d.update({"sensors sign": pd.concat([sign, sign.iloc[:1]], ignore_index=True)}),
+            "sensor name absent from the mapping": lambda d: d.update({"mapping": mapping.replace({flat[0]: "zz" if not use_cstr else 0})}),
+            "constraint naming an unknown sensor": lambda d: d.update({"constraints": pd.DataFrame([[1.0]], index=["link"], columns=["nobody"])}) if use_cstr else d.update({"constraints": pd.DataFrame([[1.0]], index=["link"], columns=["nobody"])}),
+            "constraint the mapping never uses": lambda d: d.update({"constraints": pd.DataFrame([[1.0]], index=["unused"], columns=[flat[0]])}),
+        }
+        for fname, mut in faults2.items():
+            d = fd2()
+            mut(d)
+            ok, r = call(f"geo2 fault '{fname}' raises ValueError", gen.check_on_geo2, d, ref_ind)
+            if ok:
+                note(f"geo2 fault '{fname}' raises ValueError", "accepted")
+        # ---- documented argument forms through the setup classes ------------------------------------
+        if trial < 25 and not multi:
+            from pyoma2.setup import SingleSetup
+            st = SingleSetup(np.zeros((20, n)), 10.0)
+            for form, val in _c19_forms(names, False).items():
+                try:
+                    st.def_geo1(val, coord.copy(), dirs.to_numpy().copy(), sens_lines=lines1.to_numpy().copy() if "sensors lines" in present else None)
+                    g = st.geo1
+                    if list(g.sens_names) != flat or list(g.sens_coord.index) != flat or not np.array_equal(np.asarray(g.sens_dir), dirs.loc[flat].to_numpy()):
+                        note("def_geo1 (documented argument forms): aligned to the sensor order", f"{form}: {list(g.sens_coord.index)} vs {flat}")
+                    if "sensors lines" in present and not np.array_equal(np.asarray(g.sens_lines), lines1.to_numpy() - 1):
+                        note("def_geo1 (documented argument forms): lines zero-based", f"{form}")
+                except Exception as e:      # noqa: BLE001
+                    note(f"def_geo1 accepts the documented argument forms (names as {form}, coordinates table, direction/line arrays)", f"{type(e).__name__}: {e}")
+                try:
+                    st.def_geo2(val, pts.copy(), mapping.copy(), cstr=cstr_tab.copy() if cstr_tab is not None else None,
+                                sens_sign=sign.copy() if "sensors sign" in present2 else None,
+                                sens_lines=lines2.to_numpy().copy() if "sensors lines" in present2 else None)
+                    g = st.geo2
+                    if list(g.sens_names) != flat:
+                        note("def_geo2 (documented argument forms): names", f"{form}")
+                    if "sensors lines" in present2 and not np.array_equal(np.asarray(g.sens_lines), lines2.to_numpy() - 1):
+                        note("def_geo2 (documented argument forms): lines zero-based", f"{form}")
+                except Exception as e:      # noqa: BLE001
+                    note(f"def_geo2 accepts the documented argument forms (names as {form}, tables, line arrays)", f"{type(e).__name__}: {e}")
+    fl = [{"claim": k, "detail": str(v)[:400]} for k, v in sorted(fails.items())]
+    return {"reproduced": bool(fl), "failures": fl,
+            "detail": "; ".join(f"{x['claim']}: {x['detail']}" for x in fl)[:1500] if fl else f"geometry tables agree with the property on {ntr} crafted table sets"}
+
+
+DRIVERS = {"c19_geo": c19_geo, "c15_gating": c15_gating, "c15_poser": c15_poser, "c11_plscf_findmin": c11_plscf_findmin, "c11_mpe": c11_mpe, "c06_fdd": c06_fdd, "c20_plots": c20_plots, "c18_indicators": c18_indicators, "c13_sdest": c13_sdest, "c04_preger": c04_preger, "c03_split": c03_split, "c14_sequences": c14_sequences, "c16_dialog": c16_dialog, "c02_merge": c02_merge, "c09_run": c09_run, "c10_run": c10_run, "c10_fn": c10_fn}
 
 
 def main():
